@@ -373,6 +373,90 @@ async fn thing_v3(rqctx: RequestContext<SimCtx>) -> Result<Response<Body>, HttpE
     r
 }
 
+/// The same two typed endpoints once more, declared through the API-trait
+/// macro (`#[dropshot::api_description]`) instead of `#[endpoint]`: extractor
+/// order, context and dispatch are generated by different macro code.
+#[dropshot::api_description]
+pub trait EchoTraitApi {
+    type Context;
+
+    #[endpoint { method = PUT, path = "/tt/{s}/{i}/{b}/{e}", operation_id = "echo_typed_t" }]
+    async fn echo_typed_t(
+        rqctx: RequestContext<Self::Context>,
+        path: Path<TPath>,
+        query: Query<TQuery>,
+        body: TypedBody<Doc>,
+    ) -> Result<Response<Body>, HttpError>;
+
+    #[endpoint {
+        method = POST,
+        path = "/tform/{s}",
+        operation_id = "echo_form_t",
+        content_type = "application/x-www-form-urlencoded",
+    }]
+    async fn echo_form_t(
+        rqctx: RequestContext<Self::Context>,
+        path: Path<SPath>,
+        body: TypedBody<Form>,
+    ) -> Result<Response<Body>, HttpError>;
+}
+
+pub enum EchoTraitImpl {}
+
+impl EchoTraitApi for EchoTraitImpl {
+    type Context = SimCtx;
+
+    async fn echo_typed_t(
+        rqctx: RequestContext<SimCtx>,
+        path: Path<TPath>,
+        query: Query<TQuery>,
+        body: TypedBody<Doc>,
+    ) -> Result<Response<Body>, HttpError> {
+        let (nonce, g) = delay(&rqctx).await;
+        let p = path.into_inner();
+        let q = query.into_inner();
+        let d = body.into_inner();
+        let args = json!({
+            "path": {"s": p.s, "i": p.i, "b": p.b, "e": p.e.name()},
+            "query": {
+                "qs": q.qs, "qu": q.qu, "qf": q.qf.map(|f| f.to_bits()),
+                "qe": q.qe.map(|e| e.name()), "qb": q.qb,
+                "qc": q.qc.map(|c| c.to_string()),
+            },
+            "body": {
+                "s": d.s, "i": d.i, "u": d.u, "u8v": d.u8v, "i8v": d.i8v,
+                "f": d.f.to_bits(), "b": d.b, "o": d.o, "e": d.e.name(),
+                "v": d.v, "m": d.m, "n": {"a": d.n.a, "l": d.n.l},
+            },
+        });
+        let r = respond(nonce, args, ctx_json(&rqctx));
+        g.finish();
+        r
+    }
+
+    async fn echo_form_t(
+        rqctx: RequestContext<SimCtx>,
+        path: Path<SPath>,
+        body: TypedBody<Form>,
+    ) -> Result<Response<Body>, HttpError> {
+        let (nonce, g) = delay(&rqctx).await;
+        let f = body.into_inner();
+        let args = json!({
+            "path": {"s": path.into_inner().s},
+            "body": {"a": f.a, "n": f.n, "b": f.b, "o": f.o, "e": f.e.name()},
+        });
+        let r = respond(nonce, args, ctx_json(&rqctx));
+        g.finish();
+        r
+    }
+}
+
+/// The trait-declared endpoints as an `ApiDescription` of their own, to
+/// which the function-declared ones are then added.
+pub fn trait_api() -> ApiDescription<SimCtx> {
+    echo_trait_api_mod::api_description::<EchoTraitImpl>().unwrap()
+}
+
 pub fn register(api: &mut ApiDescription<SimCtx>, versioned: bool) {
     api.register(echo_typed).unwrap();
     api.register(echo_form).unwrap();
